@@ -135,29 +135,34 @@ def initTable [Transc α] [FlatConst α] (tol : α) (evs : List (Ev α)) : List 
   init1 zero 0 (evs.map (stepOf tol))
 
 /-- `QuadraticBezierSegment::length` (closed form ported from kurbo, with the Legendre-Gauss
-branch for almost straight curves); `S::value(x)` literals are `f32` literals -/
+branch for almost straight curves), as of /repo 7d678f98: `<=` test (a point has length 0),
+quadrature weights applied to differences, `sqrt(a+b+c)` computed as `|to − ctrl|`, `2a+b` as
+`2 d2·(to − ctrl)`, sharp-turn test relative to `c2`, guarded logarithm (`¬ (0 < num)` is true for
+a NaN `num`, as `!(num > S::ZERO)` in Rust); `S::value(x)` literals are `f32` literals.
+Same expression tree as `Quad.length` (`Model/Geom/Length.lean`). -/
 def quadLength [Transc α] [FlatConst α] (q : Quad α) : α :=
   let d2 := q.a - q.c.smul two + q.b
   let d1 := q.c - q.a
+  let d3 := q.b - q.c
   let a := d2.x * d2.x + d2.y * d2.y
   let c := d1.x * d1.x + d1.y * d1.y
-  if a < FlatConst.value 1 4 * c then
-    vlen (q.a.smul (-(FlatConst.value 492943519233745 15)) + q.c.smul (FlatConst.value 430331482911935 15)
-          + q.b.smul (FlatConst.value 626120363218102 16))
-      + vlen ((q.b - q.a).smul (FlatConst.value 4444444444444444 16))
-      + vlen (q.a.smul (-(FlatConst.value 626120363218102 16))
-          + q.c.smul (-(FlatConst.value 430331482911935 15)) + q.b.smul (FlatConst.value 492943519233745 15))
+  if a ≤ FlatConst.value 1 4 * c then
+    let k1 : α := FlatConst.value 430331482911935 15
+    let k2 : α := FlatConst.value 626120363218102 16
+    let chord := q.b - q.a
+    vlen (d1.smul k1 + chord.smul k2)
+      + vlen (chord.smul (FlatConst.value 4444444444444444 16))
+      + vlen (d3.smul k1 + chord.smul k2)
   else
     let b := two * (d2.x * d1.x + d2.y * d1.y)
-    let sqrAbc := Transc.sqrt (a + b + c)
+    let sqrAbc := vlen d3
     let a2 := Transc.pow a (-half)
-    let a32 := a2 * a2 * a2
     let c2 := two * Transc.sqrt c
     let baC2 := b * a2 + c2
+    let num := two * (d2.x * d3.x + d2.y * d3.y) * a2 + two * sqrAbc
     let v0 := half * half * a2 * a2 * b * (two * sqrAbc - c2) + sqrAbc
-    if baC2 < FlatConst.epsilon then v0
-    else v0 + half * half * a32 * (four * c * a - b * b)
-           * Transc.ln (((two * a + b) * a2 + two * sqrAbc) / baC2)
+    if baC2 ≤ FlatConst.epsilon * c2 ∨ ¬ (zero < num) then v0
+    else v0 + half * half * ((four * c * a - b * b) * a2 * a2 * a2) * Transc.ln (num / baC2)
 
 /-- `CubicBezierSegment::approximate_length(tolerance)`: the lengths of the approximating quadratics -/
 def cubicApproxLength [Transc α] [FlatConst α] (c : Cubic α) (tol : α) : α :=
